@@ -19,6 +19,8 @@ CATEGORY_PROPS = {
     "odd": ["C02"],
     "rowpos": ["C04"],
     "rowarith": ["C04"],
+    # a call that failed in the real execution although tape/index moved (derived in run_specs)
+    "failappend": ["C05", "C02"],
     # conformance-only categories (not demanded by any property statement): reported on stderr
     "rowdom": [], "rowdel": [], "rowlk": [], "nrec": [], "blocks": [],
 }
@@ -152,6 +154,8 @@ def run_specs(runner, prop, specs):
         e = t["events"][d["event"]] if d["event"] >= 0 else t["init"]
         d["call"] = e["call"]
         d["cls"] = e.get("cls")
+        if d["event"] >= 0 and not e.get("ok", True) and ("nrec" in d["cats"] or "blocks" in d["cats"]):
+            d["cats"] = list(d["cats"]) + ["failappend"]
         d["spec"] = by_id[d["id"]]
         out.append(d)
     return out, problems, stats, traces
